@@ -5,9 +5,9 @@ func init() {
 		info: PropInfo{
 			Bounds: []string{
 				"6/8/26 stencils: horizontal zoom h case-split (quick: 0,1,2,3,12,25,35; thorough: 0..35), voxel indices symbolic over the whole grid including the wrapping edges",
-				"N-layer query: 1 voxel with (H,V) in {0,1}^2 and (2,0),(0,2) in thorough; 2 voxels with (H,V) in {(1,0),(0,1)}; h in {0,1,2,3,20}",
+				"N-layer query: 1 voxel with (H,V) in {0,1}^2 and (2,0),(0,2) in thorough, and horizontal layer counts 2..4 at h = 0, 1 (offsets of a world width and more); 2 voxels with (H,V) in {(1,0),(0,1)}; h in {0,1,2,3,20}",
 			},
-			Outside: []string{"layer counts above 2", "lists of more than 2 voxels", "|f| >= 2^40"},
+			Outside: []string{"layer counts above 2 (above 4 at h <= 1)", "lists of more than 2 voxels", "|f| >= 2^40"},
 		},
 		insts: func(tier string) []*Instance {
 			var is []*Instance
@@ -39,6 +39,17 @@ func init() {
 					in := mk("operated", "VerifC08Layers", cs("h", h, "H", p[0], "V", p[1], "n", 1))
 					in.Unwind = 200
 					is = append(is, in)
+				}
+				if h <= 1 {
+					// offsets of a whole world width and more: layer counts 2..4 on the 1x1 and 2x2 grids
+					for H := 2; H <= 4; H++ {
+						if H == 2 && tier == "thorough" {
+							continue // already in hv
+						}
+						in := mk("operated", "VerifC08Layers", cs("h", h, "H", H, "V", 0, "n", 1))
+						in.Unwind = 400
+						is = append(is, in)
+					}
 				}
 				for _, p := range [][2]int{{1, 0}, {0, 1}} {
 					if tier == "quick" && (h > 2 || (p[0] == 1 && h == 2)) {
